@@ -72,6 +72,7 @@ type sys struct {
 	s1, s2 *src
 	p1, p2 int
 	i1, i2 iterable.Iterator[int]
+	selBad string
 	dead   bool // after a failed Reset nothing more is specified
 	g      *gsrc
 }
@@ -124,7 +125,20 @@ func (s *sys) init() {
 		i1, i2 = r1, r2
 	}
 	s.i1, s.i2 = i1, i2
-	s.m.Init(selectors[c.sel].f, i1, i2)
+	// the selector is only defined on real elements: the mixer may consult it only with the current heads of two inputs
+	// that both still have one (a selector over richer element types would dereference what it is given)
+	strict := c.kind == 0 || c.kind == 1 || c.kind == 6
+	s.m.Init(func(x, y int) bool {
+		if strict && s.selBad == "" {
+			switch {
+			case s.p1 >= len(c.a) || s.p2 >= len(c.b):
+				s.selBad = fmt.Sprintf("the selector was consulted with (%d,%d) although an input has no element left (emitted %d of %d and %d of %d)", x, y, s.p1, len(c.a), s.p2, len(c.b))
+			case x != c.a[s.p1] || y != c.b[s.p2]:
+				s.selBad = fmt.Sprintf("the selector was consulted with (%d,%d), the heads of the inputs are (%d,%d)", x, y, c.a[s.p1], c.b[s.p2])
+			}
+		}
+		return selectors[c.sel].f(x, y)
+	}, i1, i2)
 }
 
 func (s *sys) modelNext() (int, bool) {
@@ -145,6 +159,9 @@ func (s *sys) apply(o byte) (sig, detail string) {
 	defer func() {
 		if r := recover(); r != nil {
 			sig, detail = "panic", fmt.Sprintf("op %c panicked: %v", o, r)
+		}
+		if sig == "" && s.selBad != "" && !s.dead {
+			sig, detail = "selector-misuse", fmt.Sprintf("during op %c: %s", o, s.selBad)
 		}
 	}()
 	switch o {
@@ -167,8 +184,8 @@ func (s *sys) apply(o byte) (sig, detail string) {
 			return "hasnext", fmt.Sprintf("HasNext()=%v, reference merge has next=%v (p1=%d p2=%d)", g1, want, s.p1, s.p2)
 		}
 	case 'N':
+		v, ok := s.m.Next() // (before the model moves: the selector oracle looks at the model's positions)
 		wv, wok := s.modelNext()
-		v, ok := s.m.Next()
 		if ok != wok || (ok && v != wv) || (!ok && v != 0) {
 			return "next", fmt.Sprintf("Next()=(%d,%v), reference merge gives (%d,%v)", v, ok, wv, wok)
 		}
